@@ -18,9 +18,10 @@ CONSTANTS Names, StarV, StarK, MaxNamed,
           Op,          \* "merge" | "embed" | "mask" | "forwards" | "partial"
           MaxN,        \* mask: largest num_args tried beyond the positional count
           MaxNamesLen, \* mask: longest names tuple
-          HideFlags    \* BOOLEAN: also explore the hide_* flags
+          HideFlags,   \* BOOLEAN: also explore the hide_* flags
+          DVs, ANs     \* metadata universe (C10): default-value ids / annotation ids; DVs = {} means the plain universe
 
-U == Sigs(Names, StarV, StarK, MaxNamed)
+U == IF DVs = {} THEN Sigs(Names, StarV, StarK, MaxNamed) ELSE SigsMeta(Names, StarV, StarK, MaxNamed, DVs, ANs)
 
 VARIABLES regs, fl, res
 vars == <<regs, fl, res>>
